@@ -12,11 +12,12 @@ def main():
     note = sys.argv[2] if len(sys.argv) > 2 else None
     det = json.load(open(os.path.join(ROOT, "work", "detect-%s.json" % seed)))
     pid, letter = seed.split("-")
+    section = {"a": "A", "b": "B", "c": "A", "d": "B"}[letter]        # round-2 seeds c, d are the sub-agent's A, B
     meta = {
         "seed": seed,
         "breaks_property": pid,
         "origin": "written by an independent sub-agent given only the property text and a scratch worktree of /repo",
-        "needs_to_manifest": "see notes.md (the sub-agent's description, section %s)" % letter.upper(),
+        "needs_to_manifest": "see notes.md (the sub-agent's description, section %s)" % section,
         "confirmed": {
             "how": "lib/seedtool.py verify in the scratch worktree: patch applies to HEAD, 107/107 existing tests pass with it, "
                    "demo.rs fails with it and passes without",
